@@ -2427,12 +2427,27 @@ Theorem reencoding_invariant_xfu_repaired rules dflt host own q p p' :
   decision_eq (serve_xfu repaired rules dflt host own p q) (serve_xfu repaired rules dflt host own p' q).
 Proof. intros R Hp G1. apply reencoding_invariant_xfu; auto. Qed.
 
-(** C08-F6: a forwarded target that does not parse is replaced by the proxy's own target *)
-Theorem F6_refuted :
+(** C08-F6 on the tree before d3f6cd7: a forwarded target that did not parse was replaced by the proxy's own target *)
+Theorem F6_pinned_refuted :
   enc_slash "/a%2Fb%zz" = true /\ guard_F6 "/a%2Fb%zz" = true /\ guard_F4 "/a%2Fb%zz" = false /\
-  serve_xfu repaired [] true "h" "/zz-own" "/a%2Fb%zz" "" = Accepted "default" true [] None /\
-  serve_xfu repaired_F6 [] true "h" "/zz-own" "/a%2Fb%zz" "" = Precondition.
+  serve_xfu before_F6 [] true "h" "/zz-own" "/a%2Fb%zz" "" = Accepted "default" true [] None /\
+  serve_xfu repaired [] true "h" "/zz-own" "/a%2Fb%zz" "" = Precondition.
 Proof. splits; vm_compute; reflexivity. Qed.
+
+(** on the current tree a forwarded target that does not parse is looked up as it is: the
+    `off` clause needs no guard for it *)
+Theorem off_rejects_encoded_slash_xfu_any rules dflt host own q p rid d cs up :
+  enc_slash p = true -> (guard_F6 p = false -> guard_F4 p = false) -> has_prefix "/" p = true ->
+  serve_xfu repaired rules dflt host own p q = Accepted rid d cs up ->
+  d = false /\ exists r, In r rules /\ r_id r = rid /\ r_setting r <> Off.
+Proof.
+  intros Es G Hp. destruct (guard_F6 p) eqn:G6.
+  - unfold serve_xfu, view_xfu. destruct (has_ctl p || has_ctl q); [discriminate|].
+    unfold guard_F6, wellformed in G6. apply negb_true_iff in G6.
+    destruct (unescape p) eqn:Eu; [discriminate|]. apply set_path_none in Eu. rewrite Eu. simpl.
+    apply (off_rejects_encoded_slash_envoy repaired rules dflt host q p rid d cs up Es (or_introl eq_refl)).
+  - apply off_rejects_encoded_slash_xfu; auto.
+Qed.
 
 Theorem capture_decoding_repaired_nd st v : wfenc v -> st <> On ->
   unescape_capture repaired st v = decode_keep_slash v.
